@@ -56,7 +56,7 @@ theorem shape_splitArgs : Facts.shape_splitArgs = some "a7348323a0861ddc" := by 
 theorem shape_Conn_Raw : Facts.shape_Conn_Raw = some "5132543dbb42025e" := by decide
 
 /-- [C08] `Conn.write` is the body the model transcribes -/
-theorem shape_Conn_write : Facts.shape_Conn_write = some "c6a0055d9c7d233d" := by decide
+theorem shape_Conn_write : Facts.shape_Conn_write = some "40794eb131cbea91" := by decide
 
 /-- [C08] `Conn.Pass` is the body the model transcribes -/
 theorem shape_Conn_Pass : Facts.shape_Conn_Pass = some "88d768eadebbfed9" := by decide
@@ -171,7 +171,7 @@ theorem shape_Line_Public : Facts.shape_Line_Public = some "b7b34f1deee05ce0" :=
 theorem shape_Line_Copy : Facts.shape_Line_Copy = some "4bc3e325131cb205" := by decide
 
 /-- [C02] `Line.argslen` is the body the model transcribes -/
-theorem shape_Line_argslen : Facts.shape_Line_argslen = some "6d67a1dc4140e637" := by decide
+theorem shape_Line_argslen : Facts.shape_Line_argslen = some "831b24e7eab5cc19" := by decide
 
 
 /-- [C02,C05,C13,C17,C18,C19] the internal handler table is the one `Go.Client.intHandler` transcribes -/
@@ -186,7 +186,7 @@ theorem table_stHandlers : Facts.table_stHandlers = some ["311=(*Conn).h_311", "
     "NICK=(*Conn).h_STNICK", "PART=(*Conn).h_PART", "QUIT=(*Conn).h_QUIT", "TOPIC=(*Conn).h_TOPIC"] := by decide
 
 /-- [C17] `Conn.h.001` is the body the model transcribes -/
-theorem shape_Conn_h_001 : Facts.shape_Conn_h_001 = some "39cdb5fd2e59ad85" := by decide
+theorem shape_Conn_h_001 : Facts.shape_Conn_h_001 = some "9920fd2dd12b0c96" := by decide
 
 /-- [C17] `Conn.h.433` is the body the model transcribes -/
 theorem shape_Conn_h_433 : Facts.shape_Conn_h_433 = some "75c67a2eea59a0f5" := by decide
@@ -218,7 +218,7 @@ theorem shape_Conn_getRequestCapabilities : Facts.shape_Conn_getRequestCapabilit
 theorem shape_Conn_negotiateCapabilities : Facts.shape_Conn_negotiateCapabilities = some "09eb82be607f4965" := by decide
 
 /-- [C19] `Conn.handleCapAck` is the body the model transcribes -/
-theorem shape_Conn_handleCapAck : Facts.shape_Conn_handleCapAck = some "b0b8f0a78bef721d" := by decide
+theorem shape_Conn_handleCapAck : Facts.shape_Conn_handleCapAck = some "e53e59b0c12a4ad5" := by decide
 
 /-- [C19] `Conn.handleCapNak` is the body the model transcribes -/
 theorem shape_Conn_handleCapNak : Facts.shape_Conn_handleCapNak = some "6aa9da379756d5ac" := by decide
@@ -227,10 +227,10 @@ theorem shape_Conn_handleCapNak : Facts.shape_Conn_handleCapNak = some "6aa9da37
 theorem shape_Conn_h_CAP : Facts.shape_Conn_h_CAP = some "bd8988bc5e924a43" := by decide
 
 /-- [C19] `Conn.h.410` is the body the model transcribes -/
-theorem shape_Conn_h_410 : Facts.shape_Conn_h_410 = some "13c3aa913997fadf" := by decide
+theorem shape_Conn_h_410 : Facts.shape_Conn_h_410 = some "ba6a08d6f0d5531d" := by decide
 
 /-- [C19] `Conn.h.AUTHENTICATE` is the body the model transcribes -/
-theorem shape_Conn_h_AUTHENTICATE : Facts.shape_Conn_h_AUTHENTICATE = some "21a01390eb118d50" := by decide
+theorem shape_Conn_h_AUTHENTICATE : Facts.shape_Conn_h_AUTHENTICATE = some "6fcf2b777941f2ba" := by decide
 
 /-- [C19] `Conn.h.903` is the body the model transcribes -/
 theorem shape_Conn_h_903 : Facts.shape_Conn_h_903 = some "0a5365d442c7ce2e" := by decide
@@ -239,7 +239,7 @@ theorem shape_Conn_h_903 : Facts.shape_Conn_h_903 = some "0a5365d442c7ce2e" := b
 theorem shape_Conn_h_904 : Facts.shape_Conn_h_904 = some "ccf513620a340920" := by decide
 
 /-- [C19] `Conn.h.908` is the body the model transcribes -/
-theorem shape_Conn_h_908 : Facts.shape_Conn_h_908 = some "4e057250c5a15503" := by decide
+theorem shape_Conn_h_908 : Facts.shape_Conn_h_908 = some "54f2697a81d4a77b" := by decide
 
 /-- [C19] `capSet.Add` is the body the model transcribes -/
 theorem shape_capSet_Add : Facts.shape_capSet_Add = some "fdcbdb638fc9d349" := by decide
@@ -270,10 +270,10 @@ theorem shape_Conn_h_PING : Facts.shape_Conn_h_PING = some "02bfeef3d2f7e297" :=
 theorem shape_hasPort : Facts.shape_hasPort = some "f92aadd816c5f5b2" := by decide
 
 /-- [C06,C07,C18] `Conn.internalConnect` is the body the model transcribes -/
-theorem shape_Conn_internalConnect : Facts.shape_Conn_internalConnect = some "bc56d29103a613af" := by decide
+theorem shape_Conn_internalConnect : Facts.shape_Conn_internalConnect = some "5c30fade9780767b" := by decide
 
 /-- [C18] `Conn.dialProxy` is the body the model transcribes -/
-theorem shape_Conn_dialProxy : Facts.shape_Conn_dialProxy = some "05cdd1be62679cc4" := by decide
+theorem shape_Conn_dialProxy : Facts.shape_Conn_dialProxy = some "d7fcd714c9fb39d2" := by decide
 
 /-- [C06,C07,C18] `Conn.postConnect` is the body the model transcribes -/
 theorem shape_Conn_postConnect : Facts.shape_Conn_postConnect = some "9f8d669890c827d5" := by decide
@@ -285,19 +285,19 @@ theorem shape_Conn_ping : Facts.shape_Conn_ping = some "fb69317c11dce15c" := by 
 theorem shape_st_stateTracker_Wipe : Facts.shape_st_stateTracker_Wipe = some "64ea5e0b342d25a2" := by decide
 
 /-- [C12,C13,C14] `st.stateTracker.NewNick` is the body the model transcribes -/
-theorem shape_st_stateTracker_NewNick : Facts.shape_st_stateTracker_NewNick = some "95a58f5e3a1b1023" := by decide
+theorem shape_st_stateTracker_NewNick : Facts.shape_st_stateTracker_NewNick = some "af2f468b9b8333ea" := by decide
 
 /-- [C12,C13,C14] `st.stateTracker.GetNick` is the body the model transcribes -/
 theorem shape_st_stateTracker_GetNick : Facts.shape_st_stateTracker_GetNick = some "6fbe1e12dd4a6890" := by decide
 
 /-- [C12,C13,C14] `st.stateTracker.ReNick` is the body the model transcribes -/
-theorem shape_st_stateTracker_ReNick : Facts.shape_st_stateTracker_ReNick = some "061a9d1ebc7071f1" := by decide
+theorem shape_st_stateTracker_ReNick : Facts.shape_st_stateTracker_ReNick = some "008ba22318962de3" := by decide
 
 /-- [C12,C13,C14] `st.stateTracker.DelNick` is the body the model transcribes -/
-theorem shape_st_stateTracker_DelNick : Facts.shape_st_stateTracker_DelNick = some "7b2e67d630ba5295" := by decide
+theorem shape_st_stateTracker_DelNick : Facts.shape_st_stateTracker_DelNick = some "6222b110e717453b" := by decide
 
 /-- [C12,C13,C14] `st.stateTracker.delNick` is the body the model transcribes -/
-theorem shape_st_stateTracker_delNick : Facts.shape_st_stateTracker_delNick = some "91bacf72e62fd15f" := by decide
+theorem shape_st_stateTracker_delNick : Facts.shape_st_stateTracker_delNick = some "8297738136f9442e" := by decide
 
 /-- [C12,C13,C14] `st.stateTracker.NickInfo` is the body the model transcribes -/
 theorem shape_st_stateTracker_NickInfo : Facts.shape_st_stateTracker_NickInfo = some "f803083d6380a605" := by decide
@@ -306,13 +306,13 @@ theorem shape_st_stateTracker_NickInfo : Facts.shape_st_stateTracker_NickInfo = 
 theorem shape_st_stateTracker_NickModes : Facts.shape_st_stateTracker_NickModes = some "224f2098afdffb91" := by decide
 
 /-- [C12,C13,C14] `st.stateTracker.NewChannel` is the body the model transcribes -/
-theorem shape_st_stateTracker_NewChannel : Facts.shape_st_stateTracker_NewChannel = some "a053d337704f3ed8" := by decide
+theorem shape_st_stateTracker_NewChannel : Facts.shape_st_stateTracker_NewChannel = some "f2527c521c2f0b40" := by decide
 
 /-- [C12,C13,C14] `st.stateTracker.GetChannel` is the body the model transcribes -/
 theorem shape_st_stateTracker_GetChannel : Facts.shape_st_stateTracker_GetChannel = some "f43ccfb47acc8843" := by decide
 
 /-- [C12,C13,C14] `st.stateTracker.DelChannel` is the body the model transcribes -/
-theorem shape_st_stateTracker_DelChannel : Facts.shape_st_stateTracker_DelChannel = some "3d053e5fb51b256c" := by decide
+theorem shape_st_stateTracker_DelChannel : Facts.shape_st_stateTracker_DelChannel = some "1fffe2f8566f3c49" := by decide
 
 /-- [C12,C13,C14] `st.stateTracker.delChannel` is the body the model transcribes -/
 theorem shape_st_stateTracker_delChannel : Facts.shape_st_stateTracker_delChannel = some "5c1648070a13d6f9" := by decide
@@ -330,10 +330,10 @@ theorem shape_st_stateTracker_Me : Facts.shape_st_stateTracker_Me = some "18c408
 theorem shape_st_stateTracker_IsOn : Facts.shape_st_stateTracker_IsOn = some "a6d8d270ab2d682f" := by decide
 
 /-- [C12,C13,C14] `st.stateTracker.Associate` is the body the model transcribes -/
-theorem shape_st_stateTracker_Associate : Facts.shape_st_stateTracker_Associate = some "de8736a3379e2692" := by decide
+theorem shape_st_stateTracker_Associate : Facts.shape_st_stateTracker_Associate = some "f6953efccf743f07" := by decide
 
 /-- [C12,C13,C14] `st.stateTracker.Dissociate` is the body the model transcribes -/
-theorem shape_st_stateTracker_Dissociate : Facts.shape_st_stateTracker_Dissociate = some "991104b4e85551ea" := by decide
+theorem shape_st_stateTracker_Dissociate : Facts.shape_st_stateTracker_Dissociate = some "b98aab7f8c5563f8" := by decide
 
 /-- [C12,C13,C14] `st.NewTracker` is the body the model transcribes -/
 theorem shape_st_NewTracker : Facts.shape_st_NewTracker = some "db6dc8934491c583" := by decide
@@ -345,13 +345,13 @@ theorem shape_st_nick_Nick : Facts.shape_st_nick_Nick = some "7f0da9d87c35f498" 
 theorem shape_st_nick_isOn : Facts.shape_st_nick_isOn = some "6b6c2592ccdb2bda" := by decide
 
 /-- [C12,C13,C14] `st.nick.addChannel` is the body the model transcribes -/
-theorem shape_st_nick_addChannel : Facts.shape_st_nick_addChannel = some "145e8d4e10529424" := by decide
+theorem shape_st_nick_addChannel : Facts.shape_st_nick_addChannel = some "23e167dad0d541ef" := by decide
 
 /-- [C12,C13,C14] `st.nick.delChannel` is the body the model transcribes -/
-theorem shape_st_nick_delChannel : Facts.shape_st_nick_delChannel = some "ceb2035eaf4e104a" := by decide
+theorem shape_st_nick_delChannel : Facts.shape_st_nick_delChannel = some "fb9f0b1e375e6d29" := by decide
 
 /-- [C12,C13,C14] `st.nick.parseModes` is the body the model transcribes -/
-theorem shape_st_nick_parseModes : Facts.shape_st_nick_parseModes = some "71d4595b563e8e3d" := by decide
+theorem shape_st_nick_parseModes : Facts.shape_st_nick_parseModes = some "af02e94a03ddcf8d" := by decide
 
 /-- [C12,C13,C14] `st.channel.Channel` is the body the model transcribes -/
 theorem shape_st_channel_Channel : Facts.shape_st_channel_Channel = some "6a1d0ab3683cda07" := by decide
@@ -360,13 +360,13 @@ theorem shape_st_channel_Channel : Facts.shape_st_channel_Channel = some "6a1d0a
 theorem shape_st_channel_isOn : Facts.shape_st_channel_isOn = some "dd618f0fec45e54a" := by decide
 
 /-- [C12,C13,C14] `st.channel.addNick` is the body the model transcribes -/
-theorem shape_st_channel_addNick : Facts.shape_st_channel_addNick = some "e6a4bf1a45c6ab0e" := by decide
+theorem shape_st_channel_addNick : Facts.shape_st_channel_addNick = some "169fe40cecb252b1" := by decide
 
 /-- [C12,C13,C14] `st.channel.delNick` is the body the model transcribes -/
-theorem shape_st_channel_delNick : Facts.shape_st_channel_delNick = some "26492255aa1c7acd" := by decide
+theorem shape_st_channel_delNick : Facts.shape_st_channel_delNick = some "4f158403311f95bf" := by decide
 
 /-- [C12,C13,C14] `st.channel.parseModes` is the body the model transcribes -/
-theorem shape_st_channel_parseModes : Facts.shape_st_channel_parseModes = some "cb8b61293249ead8" := by decide
+theorem shape_st_channel_parseModes : Facts.shape_st_channel_parseModes = some "34ebc36c483b0dcf" := by decide
 
 /-- [C12,C13,C14] `st.NickMode.Copy` is the body the model transcribes -/
 theorem shape_st_NickMode_Copy : Facts.shape_st_NickMode_Copy = some "71af84033dcb74d0" := by decide
@@ -384,7 +384,7 @@ theorem shape_st_newNick : Facts.shape_st_newNick = some "db7033187a769df5" := b
 theorem shape_st_newChannel : Facts.shape_st_newChannel = some "362560a59c5095b8" := by decide
 
 /-- [C03,C06,C07,C09] `Conn.send` is the body the model transcribes -/
-theorem shape_Conn_send : Facts.shape_Conn_send = some "162c8ac5dc0f00b4" := by decide
+theorem shape_Conn_send : Facts.shape_Conn_send = some "682b1bb52ac0ab80" := by decide
 
 /-- [C03,C05,C16] `Conn.dispatch` is the body the model transcribes -/
 theorem shape_Conn_dispatch : Facts.shape_Conn_dispatch = some "3d33b8cc2bacfd5b" := by decide
@@ -402,7 +402,7 @@ theorem shape_Conn_recv : Facts.shape_Conn_recv = some "109b701370dc7bfc" := by 
 theorem shape_hSet_add : Facts.shape_hSet_add = some "272dbafe1838442e" := by decide
 
 /-- [C04] `hSet.remove` is the body the model transcribes -/
-theorem shape_hSet_remove : Facts.shape_hSet_remove = some "1898d2b4b0edfd2c" := by decide
+theorem shape_hSet_remove : Facts.shape_hSet_remove = some "15610089a1680600" := by decide
 
 /-- [C04] `hSet.getHandlers` is the body the model transcribes -/
 theorem shape_hSet_getHandlers : Facts.shape_hSet_getHandlers = some "9637d3dbb010d405" := by decide
@@ -429,7 +429,7 @@ theorem shape_Conn_handle : Facts.shape_Conn_handle = some "922ae6235530898e" :=
 theorem shape_hNode_Handle : Facts.shape_hNode_Handle = some "20a4045af74921ab" := by decide
 
 /-- [C16] `Conn.LogPanic` is the body the model transcribes -/
-theorem shape_Conn_LogPanic : Facts.shape_Conn_LogPanic = some "b18100718defbb69" := by decide
+theorem shape_Conn_LogPanic : Facts.shape_Conn_LogPanic = some "213e05d3daeae8de" := by decide
 
 /-- [C05,C13] `Conn.addIntHandlers` is the body the model transcribes -/
 theorem shape_Conn_addIntHandlers : Facts.shape_Conn_addIntHandlers = some "34995594cd6c49de" := by decide
@@ -441,7 +441,7 @@ theorem shape_Conn_addSTHandlers : Facts.shape_Conn_addSTHandlers = some "3f2e60
 theorem shape_Conn_delSTHandlers : Facts.shape_Conn_delSTHandlers = some "3b3b0f98101671cd" := by decide
 
 /-- [C01,C02,C03,C06,C07] `Conn.recvFor` is the body the model transcribes -/
-theorem shape_Conn_recvFor : Facts.shape_Conn_recvFor = some "ba6d696fe339a769" := by decide
+theorem shape_Conn_recvFor : Facts.shape_Conn_recvFor = some "252c29c51d77d72b" := by decide
 
 
 /-- [C14] every exported tracker method takes the mutex first (`Lock; defer Unlock`), NewNick/NewChannel after a
@@ -474,7 +474,7 @@ theorem shape_Conn_initialise : Facts.shape_Conn_initialise = some "ea200d427896
 theorem shape_Conn_Connected : Facts.shape_Conn_Connected = some "e2923fb475642ec1" := by decide
 
 /-- [C02,C13] `Conn.h.JOIN` is the body the model transcribes -/
-theorem shape_Conn_h_JOIN : Facts.shape_Conn_h_JOIN = some "854ec6e3d7ba88b2" := by decide
+theorem shape_Conn_h_JOIN : Facts.shape_Conn_h_JOIN = some "4e8bac6d5ca61bab" := by decide
 
 /-- [C02,C13] `Conn.h.PART` is the body the model transcribes -/
 theorem shape_Conn_h_PART : Facts.shape_Conn_h_PART = some "18ef056c9dd03e49" := by decide
@@ -486,28 +486,28 @@ theorem shape_Conn_h_KICK : Facts.shape_Conn_h_KICK = some "df74f1564422b6fe" :=
 theorem shape_Conn_h_QUIT : Facts.shape_Conn_h_QUIT = some "fcc5e93767cd9b87" := by decide
 
 /-- [C02,C13] `Conn.h.MODE` is the body the model transcribes -/
-theorem shape_Conn_h_MODE : Facts.shape_Conn_h_MODE = some "6c5897cd6fb2c431" := by decide
+theorem shape_Conn_h_MODE : Facts.shape_Conn_h_MODE = some "101cc699eb0e07dc" := by decide
 
 /-- [C02,C13] `Conn.h.TOPIC` is the body the model transcribes -/
-theorem shape_Conn_h_TOPIC : Facts.shape_Conn_h_TOPIC = some "6dbfd9f4ba1e64ce" := by decide
+theorem shape_Conn_h_TOPIC : Facts.shape_Conn_h_TOPIC = some "55a6d5cbdca4d8b5" := by decide
 
 /-- [C02,C13] `Conn.h.311` is the body the model transcribes -/
-theorem shape_Conn_h_311 : Facts.shape_Conn_h_311 = some "da6476512c3c9d5c" := by decide
+theorem shape_Conn_h_311 : Facts.shape_Conn_h_311 = some "83ca2ad8ad48c63a" := by decide
 
 /-- [C02,C13] `Conn.h.324` is the body the model transcribes -/
-theorem shape_Conn_h_324 : Facts.shape_Conn_h_324 = some "9a26b71307a4953a" := by decide
+theorem shape_Conn_h_324 : Facts.shape_Conn_h_324 = some "632000adbbef5a1c" := by decide
 
 /-- [C02,C13] `Conn.h.332` is the body the model transcribes -/
-theorem shape_Conn_h_332 : Facts.shape_Conn_h_332 = some "566c0f655946de46" := by decide
+theorem shape_Conn_h_332 : Facts.shape_Conn_h_332 = some "9bba4416deaee0ae" := by decide
 
 /-- [C02,C13] `Conn.h.352` is the body the model transcribes -/
-theorem shape_Conn_h_352 : Facts.shape_Conn_h_352 = some "e7cc05a1ce7f1d00" := by decide
+theorem shape_Conn_h_352 : Facts.shape_Conn_h_352 = some "e4aa9dc387218e58" := by decide
 
 /-- [C02,C13] `Conn.h.353` is the body the model transcribes -/
-theorem shape_Conn_h_353 : Facts.shape_Conn_h_353 = some "a9fc6ea966ff4192" := by decide
+theorem shape_Conn_h_353 : Facts.shape_Conn_h_353 = some "c8b1c7c5aa9b3462" := by decide
 
 /-- [C02,C13] `Conn.h.671` is the body the model transcribes -/
-theorem shape_Conn_h_671 : Facts.shape_Conn_h_671 = some "02a7cf48eb3f88f2" := by decide
+theorem shape_Conn_h_671 : Facts.shape_Conn_h_671 = some "80efc4f70dec750d" := by decide
 
 /-- [C02,C13] `Conn.h.CTCP` is the body the model transcribes -/
 theorem shape_Conn_h_CTCP : Facts.shape_Conn_h_CTCP = some "0aedd2d57bd72cb7" := by decide
